@@ -47,6 +47,7 @@ def mk_union_program(alts, cons=None, opaque_at=None):
         if cons:
             from vf.spec import cons_src
             ann = f"Annotated[{ann}, schema({cons_src(cons)})]"
+        lines.append(f"B{i} = {a.ann()}")
         lines.append(f"A{i} = {ann}")
         names.append(f"A{i}")
     extra = "\n".join(lines) + "\n"
@@ -81,8 +82,14 @@ def check_union(env, alts, label, ndata, cons=None, opaque_at=None):
         targs = get_args(T)
         if cons:
             targs = get_args(targs[0])
-        if len([a for a in targs if getattr(a, "__name__", "") != "Opaque"]) != len(alts):
+        real_alts = [a for a in targs if getattr(a, "__name__", "") != "Opaque"]
+        if len(real_alts) != len(alts):
             env.count("union_collapsed_by_typing")
+            return
+        if any(x != getattr(prog.module, f"B{i}") for i, x in enumerate(real_alts)):
+            # typing caches Annotated[Union[...], md] by the (order-insensitive) equality of the union: an earlier
+            # program with the reversed union makes `T` carry the other order -- not the program we meant to test
+            env.count("union_reordered_by_typing_cache")
             return
         if opaque_at is not None:
             env.count("unsupported_member_unions")
@@ -415,6 +422,13 @@ def run(env):
     harness.tag_errors(False)
     rng = env.rng
     g = gen_types.Gen(rng)
+    # ---- (2) discriminated, (3) tagged
+    for j in range(env.n(1600, 20000)):
+        if env.out_of_time():
+            break
+        check_discriminated(env, j)
+    for j in range(env.n(16, 64)):
+        check_tagged(env, j)
     # ---- (1a) all ordered pairs of small atoms / depth-1 types
     atoms = gen_types.small_atoms()
     pairs = [(a, b) for a in atoms for b in atoms if a[0] != b[0]]
@@ -452,17 +466,10 @@ def run(env):
         u = g.union(0, ())
         cons = None
         if rng.random() < 0.15:
-            cons = dict(rng.choice(gen_types.NUM_CONS + gen_types.STR_CONS + gen_types.ARR_CONS))
+            cons = dict(rng.choice(gen_types.NUM_CONS + [c for c in gen_types.STR_CONS if "pattern" not in c] + gen_types.ARR_CONS))  # (two patterns cannot be merged)
             if any(isinstance(n_, Ann) for a in u.alts for n_ in [a]):
                 cons = None
         check_union(env, u.alts, f"random#{env.shard}.{j}", ndata=20, cons=cons, opaque_at=(rng.randrange(len(u.alts)) if rng.random() < 0.08 else None))
-    # ---- (2) discriminated, (3) tagged
-    for j in range(env.n(1600, 20000)):
-        if env.out_of_time():
-            break
-        check_discriminated(env, j)
-    for j in range(env.n(16, 64)):
-        check_tagged(env, j)
     env.sample({"union": "Union[float, Annotated[int, schema(max=5)]]", "datum": 10, "oracle": "first accepting alternative (float) => 10.0"})
 
 
